@@ -738,12 +738,17 @@ def runsOf : List Nat → List (Nat × Nat)
     | (s, e) :: more => if s = i + 1 then (i, e) :: more else (i, i + 1) :: (s, e) :: more
     | [] => [(i, i + 1)]
 
-/-- one result row of `_process_intervals_numba`: the runs, or all `-1` when there are more than
-`bufSize` gaps; unused slots stay 0 -/
-def hdrRow (bufSize : Nat) (ind : List Nat) : List (Int × Int) :=
+/-- one result row of `_process_intervals_numba`: the runs, or all `-1` when they do not fit into the
+`bufSize` slots; unused slots stay 0. `fixed = true` is the code as it is now (`if len(gaps) >= _buffer_size`),
+`false` the comparison before the fix of D30 (`>`), which let `bufSize + 1` runs through — one more than the
+buffer holds (an out-of-bounds write in the real code; here: a row that is longer than the buffer). -/
+def hdrRowGen (fixed : Bool) (bufSize : Nat) (ind : List Nat) : List (Int × Int) :=
   let runs := runsOf ind
-  if runs.length - 1 > bufSize then List.replicate bufSize (-1, -1)
+  let nGaps := runs.length - 1
+  if (if fixed then decide (nGaps ≥ bufSize) else decide (nGaps > bufSize)) then List.replicate bufSize (-1, -1)
   else (runs.map fun r => ((r.1 : Int), (r.2 : Int))) ++ List.replicate (bufSize - runs.length) (0, 0)
+
+def hdrRow (bufSize : Nat) (ind : List Nat) : List (Int × Int) := hdrRowGen true bufSize ind
 
 structure HdrState where
   lowest : Option Rat       -- `lowest_sample_seen` (`inf` = none)
